@@ -21,12 +21,32 @@ type c06Chooser struct {
 	seen    int
 	crashed bool
 	ops     []string // labels of completions seen (the boundary-operation sequence)
+	// an interrupted upload that is NOT a crash: the first completion of kind failKind at or after completion failAt
+	// fails (failVariant "fail" = without effect, "failafter" = object stored, error reported); "" = none
+	failKind    string
+	failVariant string
+	failAt      int
+	picks       int
+	failed      bool
+	failedOp    string
 }
 
 func (c *c06Chooser) pick(labels []string) int {
 	i := c.base.pick(labels)
 	l := labels[i]
 	if strings.HasPrefix(l, "ok:") {
+		n := c.picks
+		c.picks++
+		if c.failKind != "" && !c.failed && n >= c.failAt && strings.Contains(l, ":"+c.failKind+":") {
+			want := c.failVariant + ":" + strings.TrimPrefix(l, "ok:")
+			for j, x := range labels {
+				if x == want {
+					c.failed = true
+					c.failedOp = x
+					return j
+				}
+			}
+		}
 		idx := c.seen
 		c.seen++
 		c.ops = append(c.ops, strings.TrimPrefix(l, "ok:"))
@@ -85,6 +105,19 @@ func c06History(rng *rand.Rand, hi int) plogCfg {
 	return cfg
 }
 
+// c06Fail is the non-crash upload failure of a history (Kind "" = none).
+type c06Fail struct {
+	Kind, Variant string
+	At            int
+}
+
+func c06FailPlan(rng *rand.Rand) c06Fail {
+	if rng.Intn(2) == 0 {
+		return c06Fail{}
+	}
+	return c06Fail{Kind: []string{"upload_index", "upload_index", "upload_segment"}[rng.Intn(3)], Variant: []string{"fail", "failafter"}[rng.Intn(2)], At: rng.Intn(8)}
+}
+
 type c06Ack struct {
 	Res      plogRes
 	PreCrash bool
@@ -123,9 +156,13 @@ func c06Contains(rec, sent []byte) bool {
 }
 
 // c06Run runs history cfg with a crash at completion k (k<0: fault-free) and applies the oracles.
-func c06Run(t *testing.T, r *verifkit.Run, cfg plogCfg, seed int64, k int, variant string) (ops []string, crashedAt string) {
+func c06Run(t *testing.T, r *verifkit.Run, cfg plogCfg, fp c06Fail, seed int64, k int, variant string) (ops []string, crashedAt string) {
 	synctest.Test(t, func(t *testing.T) {
-		ch := &c06Chooser{base: &rngChooser{rng: rand.New(rand.NewSource(seed))}, k: k, variant: variant}
+		ch := &c06Chooser{base: &rngChooser{rng: rand.New(rand.NewSource(seed))}, k: k, variant: variant, failKind: fp.Kind, failVariant: fp.Variant, failAt: fp.At}
+		if fp.Kind != "" {
+			cfg.FaultKinds = append(append([]outcome(nil), cfg.FaultKinds...), outFailBefore, outFailAfter)
+			cfg.FaultBudget = 1
+		}
 		s := newScenario(t, cfg)
 		var acks []c06Ack
 		maxShown := map[int32]int64{0: -1, 1: -1} // highest offset acknowledged or returned to a consumer, per partition
@@ -133,7 +170,7 @@ func c06Run(t *testing.T, r *verifkit.Run, cfg plogCfg, seed int64, k int, varia
 		crashed := false
 		reported := map[string]bool{}
 		witness := func(why string) map[string]any {
-			return map[string]any{"config": c01CfgSummary(cfg), "schedule": append([]string(nil), s.trace...), "crash": fmt.Sprintf("%s at boundary op #%d", variant, k), "why": why, "s3_keys": s.s3.keys("default/"), "store_events": s.hub.events}
+			return map[string]any{"config": c01CfgSummary(cfg), "schedule": append([]string(nil), s.trace...), "crash": fmt.Sprintf("%s at boundary op #%d", variant, k), "failed_upload": ch.failedOp, "why": why, "s3_keys": s.s3.keys("default/"), "store_events": s.hub.events}
 		}
 		readBack := func(when string) {
 			h, inst := s.hs[s.cur], s.insts[s.cur]
@@ -227,6 +264,10 @@ func c06Run(t *testing.T, r *verifkit.Run, cfg plogCfg, seed int64, k int, varia
 		readBack("at the end, after a further clean restart")
 		s.teardown()
 		ops = ch.ops
+		if ch.failed {
+			r.Count("runs_with_a_failed_upload_before_the_crash_or_restart", 1)
+			r.Seen("failed_uploads", fp.Variant+"@"+fp.Kind)
+		}
 		if crashed {
 			r.Seen("crash_points", variant+"@"+opKind(crashedAt))
 		}
@@ -245,14 +286,15 @@ func opKind(label string) string {
 
 func TestVerifC06Crash(t *testing.T) {
 	r := verifkit.Start(t, "C06", "crash")
-	defer r.Finish("history = 2 producers x 3 batches or 3 producers x 2 batches (1-3 records) on 2 partitions + 1 consumer issuing 6 fetches, buffer thresholds {never, every append, 3 msgs}, index interval {1,100}, cache on/off, one fixed interleaving per history; it is run fault-free to obtain its boundary-operation sequence o_0..o_n-1 (upload_segment, upload_index, update_offsets), then re-run for EVERY k in 0..n-1 in two variants: crash just before o_k, and o_k's effect applied with the broker dead before learning it. evaluations = crash runs + baseline runs; distinct = (history, k, variant); non-trivial = crash run in which the crash point was reached and >= 1 acknowledgement preceded it",
+	defer r.Finish("history = 2 producers x 3 batches or 3 producers x 2 batches (1-3 records) on 2 partitions + 1 consumer issuing 6 fetches, buffer thresholds {never, every append, 3 msgs}, index interval {1,100}, cache on/off, one fixed interleaving per history; half of the histories also contain ONE interrupted upload that is not a crash (the first upload_index / upload_segment at or after a PRNG-chosen boundary operation fails, with or without the object having been stored; the produce is answered with an error and a later flush retries); it is run crash-free to obtain its boundary-operation sequence o_0..o_n-1 (upload_segment, upload_index, update_offsets), then re-run for EVERY k in 0..n-1 in two variants: crash just before o_k, and o_k's effect applied with the broker dead before learning it. evaluations = crash runs + baseline runs; distinct = (history, k, variant); non-trivial = crash run in which the crash point was reached and >= 1 acknowledgement preceded it",
 		"fake S3 atomic puts; surviving metadata store = real InMemoryStore", "the interleaving of each history is fixed by a PRNG over non-fault actions; C01/C05 explore interleavings")
 	nh := r.N(40, 1200)
 	for hi := 0; hi < nh; hi++ {
 		rng := r.Rand(hi)
 		cfg := c06History(rng, hi)
 		seed := rng.Int63()
-		ops, _ := c06Run(t, r, cfg, seed, -1, "")
+		fp := c06FailPlan(rng)
+		ops, _ := c06Run(t, r, cfg, fp, seed, -1, "")
 		r.Case(fmt.Sprint("baseline", hi), false)
 		r.Count("boundary_ops_in_baselines", int64(len(ops)))
 		if hi == 0 {
@@ -261,7 +303,7 @@ func TestVerifC06Crash(t *testing.T) {
 		for k := range ops {
 			for _, variant := range []string{"crashbefore", "crashafter"} {
 				before := r.Violated()
-				_, at := c06Run(t, r, cfg, seed, k, variant)
+				_, at := c06Run(t, r, cfg, fp, seed, k, variant)
 				r.Case(fmt.Sprint(hi, k, variant), at != "" && k > 0)
 				_ = before
 			}
